@@ -17,4 +17,9 @@ pub mod chrono_types {
     #[derive(Clone, Copy)] pub struct DateTime<Tz> { _p: std::marker::PhantomData<Tz> }
     #[derive(Clone, Copy)] pub struct FixedOffset { _p: i32 }
     #[derive(Clone, Copy)] pub struct Duration { _p: i64 }
+    #[derive(Clone, Copy)] pub struct Utc;
+    pub struct ParseError { _p: u8 }
+    impl std::fmt::Display for ParseError { fn fmt(&self, f: &mut std::fmt::Formatter<'_>) -> std::fmt::Result { unimplemented!() } }
+    impl std::str::FromStr for DateTime<FixedOffset> { type Err = ParseError; fn from_str(s: &str) -> Result<Self, ParseError> { unimplemented!() } }
+    impl std::str::FromStr for DateTime<Utc> { type Err = ParseError; fn from_str(s: &str) -> Result<Self, ParseError> { unimplemented!() } }
 }
